@@ -296,6 +296,15 @@ def dict_get(I, st, o: DictObj, key, site, strict=True, default=None):
             I.check(st, z3.Or(*conds) if conds else False, "KeyError", "dict.key", site)
             return ite_chain(st, [(conds[i], o.items[keys[i]]) for i in range(len(keys) - 1)], o.items[keys[-1]])
         return ite_chain(st, [(conds[i], o.items[keys[i]]) for i in range(len(keys))], default)
+    if z3.is_expr(key) and z3.is_int(key):
+        keys = [k for k in o.items if isinstance(k, int) and not isinstance(k, bool)]
+        conds = [z3.And(key == k, to_z3(o.present.get(k, True))) for k in keys]
+        if strict:
+            I.check(st, z3.Or(*conds) if conds else False, "KeyError", "dict.key", site)
+            if not keys:
+                raise SymRaise(ClassVal("KeyError", KeyError), st, "empty dict", site)
+            return ite_chain(st, [(conds[i], o.items[keys[i]]) for i in range(len(keys) - 1)], o.items[keys[-1]])
+        return ite_chain(st, [(conds[i], o.items[keys[i]]) for i in range(len(keys))], default)
     if is_strterm(key):
         keys = [k for k in o.items if isinstance(k, str)]
         conds = [z3.And(key == lit(k), to_z3(o.present.get(k, True))) for k in keys]
